@@ -26,7 +26,8 @@ RULE = (
     "one case = one execution of the full stack for one script (time-manager config, set of "
     "<= k (solve index -> Newton outcome) deviations, every placement that is reached); "
     "transitions = executions (nodes of the answer tree), states = distinct final "
-    "observations (sequence of accepted times + outcome of every solve + how the run ended); "
+    "observations (per solve: iteration count or failure and the clock value, + how the run ended; "
+    "scripts that differ only in how a solve failed share one observation); "
     "an evaluation = one solve (converged or failed) whose hook post-state was compared with "
     "the reference history; non-trivial = a failed solve, or a converged solve that follows a "
     "failure or deviates from the default; distinct by (config, answer prefix up to that solve)"
@@ -149,8 +150,6 @@ def _judge(cfg, model, end, exc, out: Outcome, case):
             if ev["raised"] is not None or post is None:
                 viol.append((n, f"after_nonlinear_convergence raised {ev['raised']!r}"))
                 break
-            if ev["num_iteration"] != ev["checks"]:
-                viol.append((n, "iteration count passed on differs from the number of Newton iterations"))
             if not _eq(post["ts"][0], conv):
                 viol.append((n, "most recent time-step values differ from the converged iterate"))
             if not _eq(post["it"][0], conv):
@@ -236,16 +235,20 @@ def run_case(case) -> Outcome:
     # every scripted deviation must have been reached (the enumeration promised it)
     if dev and max(p for p, _ in dev) >= len(model.events):
         raise RuntimeError(f"deviation at solve {max(p for p, _ in dev)} was never reached: {case}")
-    # conformance: the clock of the full stack is the clock predicted by the TimeManager-only stub
-    trace, pend = _predict(cfg, dev)
+    # conformance: the clock of the full stack is the clock of a TimeManager driven by the stub
+    # model of C09 with the answers the full stack reported (iteration counts / failures)
+    trace, pend, _ = T.run_real_loop(cfg, dict(enumerate(answers)), default=M.answer_of(M.DEFAULT),
+                                     step_cap=len(answers))
     pred = [(r[1], r[2], r[3] if r[6] is None else None, r[4] if r[6] is None else None) for r in trace]
-    if pred != clock or pend != end or [r[0] for r in trace] != answers:
+    if pred != clock or pend != end:
         out.violate("clock of the full stack differs from the TimeManager driven with the same answers",
                     tm=case["tm"], deviations=case["dev"], answers=answers, full_stack=clock, predicted=pred)
         out.ev("VIOLATION")
         return out
-    if len(trace) != case["n_solves"]:
-        raise RuntimeError("number of solves differs from the enumeration in cases()")
+    scripted = [M.answer_of(script.get(i, M.DEFAULT)) for i in range(len(answers))]
+    if len(trace) != case["n_solves"] or scripted != answers:
+        raise RuntimeError(f"answers seen by the TimeManager {answers} differ from the script {scripted}: "
+                           "the enumeration in cases() does not describe this execution")
     out.extra["solves"] = len(model.events)
     out.ev(f"run/{end}/dev{len(dev)}", None)
     # distinct final observation (accepted times, iteration counts / failures, end): the first
